@@ -6,8 +6,8 @@ From Coq Require Import List Arith NArith ZArith.
 From CelloV Require Import Generated StringModel StringProofs.
 Import ListNotations.
 
-(* every history of assign/concat/append/resize/rem/mem/cmp/eq/len/c_str/hash/print_to from any
-   initial value: same results as the abstract-string specification, never undefined behaviour,
+(* every history of assign/concat/append/resize/rem/mem/cmp/eq/len/c_str/hash/print_to — with
+   any C string or the String itself as the argument — from any initial value: same results as the abstract-string specification, never undefined behaviour,
    and the final allocation holds exactly the specification's string *)
 Theorem C16_history_refines : forall v0 ops, nulfree v0 -> Forall op_ok ops ->
   exists b0 bf, c_new v0 = Some b0 /\ c_run b0 ops = (fst (spec_run v0 ops), bf) /\
@@ -17,13 +17,13 @@ Print Assumptions C16_history_refines.
 
 Example C16_history_refines_nonvacuous :
   nulfree [97; 98; 99; 98; 99; 97; 98] /\
-  Forall op_ok [ORem [98; 99; 97; 98]; OLen; OMem [99]; OPrint 1 [PLit [120]; PInt (-42)]; OCStr] /\
+  Forall op_ok [ORem [98; 99; 97; 98]; OLen; OMem [99]; OPrint 1 [PLit [120]; PInt (-42)]; OCStr; OConcatSelf; OLen] /\
   exists b0, c_new [97; 98; 99; 98; 99; 97; 98] = Some b0 /\
-    fst (c_run b0 [ORem [98; 99; 97; 98]; OLen; OMem [99]; OPrint 1 [PLit [120]; PInt (-42)]; OCStr])
-    = [SUnit; SNat 3; SBool true; SNat 5; SChars [97; 120; 45; 52; 50]].
+    fst (c_run b0 [ORem [98; 99; 97; 98]; OLen; OMem [99]; OPrint 1 [PLit [120]; PInt (-42)]; OCStr; OConcatSelf; OLen])
+    = [SUnit; SNat 3; SBool true; SNat 5; SChars [97; 120; 45; 52; 50]; SUnit; SNat 10].
 Proof.
   split; [repeat constructor; discriminate|]. split; [repeat constructor; discriminate|].
-  eexists. split; vm_compute; reflexivity.
+  exists (map Some [97; 98; 99; 98; 99; 97; 98; 0]). split; vm_compute; reflexivity.
 Qed.
 
 Theorem C16_step_refines : forall b s o, repr b s -> op_ok o ->
@@ -102,6 +102,23 @@ Print Assumptions C16_cmp_lt.
 Theorem C16_cmp_antisym : forall a b, str_compare b a = CompOpp (str_compare a b).
 Proof. exact str_compare_antisym. Qed.
 Print Assumptions C16_cmp_antisym.
+
+(* the String itself as the argument means the same as any argument with its value *)
+Theorem C16_self_argument_by_value : forall s,
+  spec_step s OAssignSelf = spec_step s (OAssign s) /\
+  spec_step s OConcatSelf = spec_step s (OConcat s) /\
+  spec_step s ORemSelf = spec_step s (ORem s) /\
+  spec_step s OMemSelf = spec_step s (OMem s) /\
+  spec_step s OCmpSelf = spec_step s (OCmp s) /\
+  spec_step s OEqSelf = spec_step s (OEq s).
+Proof. exact self_ops_by_value. Qed.
+Print Assumptions C16_self_argument_by_value.
+
+(* assign(s, s) / concat(s, s) before their repair: undefined behaviour in every state *)
+Theorem C16_self_argument_before_repair_undefined : forall b fa fc,
+  m_assign_self fa false b = None /\ m_concat_self fc false b = None.
+Proof. exact self_argument_old_shapes_undefined. Qed.
+Print Assumptions C16_self_argument_before_repair_undefined.
 
 (* the code before the repair of String_Rem (D6) *)
 Theorem C16_rem_before_repair_refuted :
